@@ -1,6 +1,12 @@
 #![cfg_attr(all(nightly, test), feature(test))]
 
+#[cfg(not(may_verif))]
 mod atomic;
+#[cfg(may_verif)]
+#[path = "atomic_verif.rs"]
+mod atomic;
+#[cfg(may_verif)]
+pub mod verif;
 
 pub mod mpsc;
 pub mod mpsc_list;
